@@ -3,6 +3,7 @@ package simrt
 import (
 	"fmt"
 	"reflect"
+	"runtime"
 	"sort"
 	"time"
 )
@@ -21,7 +22,11 @@ func Send[T any](site string, ch chan<- T, v T) {
 	default:
 	}
 	block(g, site)
-	ch <- v
+	select {
+	case ch <- v:
+	case <-g.kill:
+		runtime.Goexit()
+	}
 	unblock(g)
 }
 
@@ -62,7 +67,11 @@ func Recv2[T any](site string, ch <-chan T) (v T, ok bool) {
 	default:
 	}
 	block(g, site)
-	v, ok = <-ch
+	select {
+	case v, ok = <-ch:
+	case <-g.kill:
+		runtime.Goexit()
+	}
 	unblock(g)
 	return
 }
@@ -87,7 +96,13 @@ func Sleep(site string, d time.Duration) {
 		return
 	}
 	block(g, site)
-	time.Sleep(d)
+	tm := time.NewTimer(d)
+	select {
+	case <-tm.C:
+	case <-g.kill:
+		tm.Stop()
+		runtime.Goexit()
+	}
 	unblock(g)
 }
 
@@ -99,7 +114,8 @@ func BlockForever(site string) {
 	}
 	yieldG(g, site)
 	block(g, site)
-	<-make(chan struct{})
+	<-g.kill
+	runtime.Goexit()
 }
 
 // Case is one communication clause of a select
@@ -140,6 +156,10 @@ func As2[T any](_ <-chan T, s Sel) (out T, ok bool) {
 
 var defaultCase = reflect.SelectCase{Dir: reflect.SelectDefault}
 
+func (g *G) killCase() reflect.SelectCase {
+	return reflect.SelectCase{Dir: reflect.SelectRecv, Chan: reflect.ValueOf(g.kill)}
+}
+
 // Select is a select statement: yields, polls the clauses starting from a position given by the decision
 // stream, takes the first ready one, else default, else blocks on all of them
 func Select(site string, hasDefault bool, cases ...Case) Sel {
@@ -165,12 +185,11 @@ func Select(site string, hasDefault bool, cases ...Case) Sel {
 	if hasDefault {
 		return Sel{I: -1}
 	}
-	if len(rc) == 0 {
-		block(g, site)
-		<-make(chan struct{})
-	}
 	block(g, site)
-	i, v, ok := reflect.Select(rc)
+	i, v, ok := reflect.Select(append(rc, g.killCase()))
+	if i == len(rc) {
+		runtime.Goexit()
+	}
 	unblock(g)
 	i, v, ok = g.sched.breakTimerTie(rc, i, v, ok)
 	return Sel{i, v, ok}
@@ -233,7 +252,10 @@ func ReflectSelect(site string, cases []reflect.SelectCase) (int, reflect.Value,
 		return di, reflect.Value{}, false
 	}
 	block(g, site)
-	i, v, ok := reflect.Select(rc)
+	i, v, ok := reflect.Select(append(rc, g.killCase()))
+	if i == len(rc) {
+		runtime.Goexit()
+	}
 	unblock(g)
 	i, v, ok = g.sched.breakTimerTie(rc, i, v, ok)
 	return idx[i], v, ok
